@@ -366,7 +366,9 @@ def canon_result(target, r):
 
 def _canon_result(target, r):
     if isinstance(r, tuple):
-        return r
+        if len(r) == 2 and r[0] in ("raised", "unexpected") and isinstance(r[1], str):
+            return r            # a marker produced by this harness
+        return ("unexpected", "tuple")      # the stream itself emitted a tuple (e.g. an aggregation's internal state)
     if target["kind"] == "col" and target["agg"] != "value_counts":
         return frac(r)
     if target["kind"] == "frame":
@@ -1686,6 +1688,338 @@ def prog_corpus():
     return cs
 
 
+# ------------------------------------------------------------------ oracle-only stream: updating (x) streaming operands
+
+# Trees mixing running aggregates ('updating' collections) with streaming columns / frames, through the
+# unary and binary operators of OperatorMixin, in BOTH operand orders:
+#   ["s", E]              streaming column expression                      (streaming Series)
+#   ["sf"]                the streaming frame itself                       (streaming DataFrame)
+#   ["u", agg, E]         running sum|count|mean|size of a column expr     (updating scalar)
+#   ["uf", agg]           running sum|count|mean of the frame              (updating Series over the columns)
+#   ["ug", agg, key, val] running groupby(key)[val].agg()                  (updating Series over the keys)
+#   ["bin", op, T, T] ["binr", op, T, c] ["binl", op, c, T] ["neg", T] ["abs", T] ["cmp", op, T, T] ["cmpr", op, T, c]
+# Meaning (the convention of map_partitions + zip on a synchronous source): after batch k every running
+# aggregate holds its value over batches 1..k (batch k included) and is broadcast against the rows of
+# batch k only: value_k = tree(aggregates of the prefix, rows of batch k).  A tree with a streaming leaf is
+# a streaming collection again: an outer running aggregation folds value_1 .. value_k.  A tree of updating
+# leaves only is an updating collection: its k-th version is observed, and sum/count/mean of it reduce that version.
+
+MIX_UAGG = ["sum", "count", "mean", "size"]
+
+
+def mix_kind(T):
+    k = T[0]
+    if k == "s":
+        return "SS"
+    if k == "sf":
+        return "SF"
+    if k == "u":
+        return "US"
+    if k == "uf":
+        return "UC"
+    if k == "ug":
+        return "UG"
+    kinds = [mix_kind(x) for x in T[1:] if isinstance(x, list) and x and isinstance(x[0], str) and
+             x[0] in ("s", "sf", "u", "uf", "ug", "bin", "binr", "binl", "neg", "abs", "cmp", "cmpr")]
+    for k in ("SF", "SS", "UG", "UC", "US"):
+        if k in kinds:
+            return k
+    raise ValueError(T)
+
+
+def mix_has(T, leaf):
+    return T[0] == leaf or any(isinstance(x, list) and x and isinstance(x[0], str) and mix_has(x, leaf) for x in T[1:]
+                               if isinstance(x, list) and T[0] not in ("s", "u"))
+
+
+def build_t(T, fs, fu):
+    """fs supplies the streaming leaves, fu the running aggregates: the same streaming frame for streamz;
+    for the oracle fs = the rows of batch k, fu = the concatenated prefix (plain pandas)."""
+    k = T[0]
+    if k == "s":
+        return build_c(fs, T[1])
+    if k == "sf":
+        return fs
+    if k == "u":
+        s_ = build_c(fu, T[2])
+        return s_.size if T[1] == "size" else getattr(s_, T[1])()
+    if k == "uf":
+        return getattr(fu, T[1])()
+    if k == "ug":
+        return getattr(fu.groupby(L(T[2]))[L(T[3])], T[1])()
+    if k == "bin":
+        return BIN_ALL[T[1]](build_t(T[2], fs, fu), build_t(T[3], fs, fu))
+    if k == "binr":
+        return BIN_ALL[T[1]](build_t(T[2], fs, fu), T[3])
+    if k == "binl":
+        return BIN_ALL[T[1]](T[2], build_t(T[3], fs, fu))
+    if k == "neg":
+        return -build_t(T[1], fs, fu)
+    if k == "abs":
+        return abs(build_t(T[1], fs, fu))
+    if k == "cmp":
+        return CMP[T[1]](build_t(T[2], fs, fu), build_t(T[3], fs, fu))
+    if k == "cmpr":
+        return CMP[T[1]](build_t(T[2], fs, fu), T[3])
+    raise ValueError(T)
+
+
+def mix_outer(obj, outer, streaming_kind):
+    """the aggregation applied on top of the tree (None = the tree is only observed)"""
+    if outer is None:
+        return None
+    if outer.get("col") is not None:
+        obj = obj[L(outer["col"])]
+    agg = outer["agg"]
+    return obj.size if agg == "size" else getattr(obj, agg)()
+
+
+def canon_value(kind, v):
+    """per-batch value of a tree -> comparable"""
+    try:
+        if kind == "SS":
+            return ("series", list(v.index), [frac(x) for x in v])
+        if kind == "SF":
+            return ("frame", [unL(c) for c in v.columns], list(v.index), frame_rows(list(v.columns), v))
+        if kind == "US":
+            return ("scalar", frac(v))
+        if kind == "UC":
+            return ("bycol", {unL(c): frac(x) for c, x in v.items()})
+        return ("bykey", ser_items(v))
+    except Exception:
+        return ("unexpected", type(v).__name__)
+
+
+def canon_outer(kind, outer, r):
+    try:
+        if isinstance(r, tuple):
+            return r if (len(r) == 2 and r[0] in ("raised", "unexpected", "emitted")) else ("unexpected", "tuple")
+        if kind == "SF" and outer.get("col") is None and outer["agg"] != "size":
+            return {unL(c): frac(x) for c, x in r.items()}
+        return frac(r)
+    except Exception:
+        return ("unexpected", type(r).__name__)
+
+
+def values_close(a, b):
+    """structural comparison of canon_value / canon_outer results with the numeric tolerance of `close`"""
+    if isinstance(a, Fraction) or isinstance(b, Fraction) or a is None or b is None or isinstance(a, str) or isinstance(b, str):
+        if isinstance(a, (list, tuple, dict)) or isinstance(b, (list, tuple, dict)):
+            return False
+        return close(a, b, 1e-9)
+    if type(a) is not type(b):
+        return a == b
+    if isinstance(a, dict):
+        return set(a) == set(b) and all(values_close(a[k], b[k]) for k in a)
+    if isinstance(a, (list, tuple)):
+        return len(a) == len(b) and all(values_close(x, y) for x, y in zip(a, b))
+    return a == b
+
+
+def run_mixed_impl(case):
+    from streamz import Stream
+    from streamz.dataframe import DataFrame
+    cols = case["cols"]
+    try:
+        source = Stream()
+        sdf = DataFrame(source, example=example_for(cols))
+        f = build_pipe(sdf, case["pipe"])
+        tree = build_t(case["tree"], f, f)
+        vals = tree.stream.sink_to_list()                       # observed directly, batch by batch
+        o = mix_outer(tree, case["outer"], True)
+        out = o.stream.sink_to_list() if o is not None else None
+    except Exception as e:
+        return {"construct_error": type(e).__name__ + ": " + str(e)[:200]}
+    res, vs, start = [], [], 0
+    for b in case["batches"]:
+        df = mk_frame(cols, b, start)
+        start += len(df)
+        n_out, n_v = len(out or []), len(vals)
+        try:
+            source.emit(df)
+        except Exception as e:
+            res.append(("raised", type(e).__name__))
+        else:
+            res.append(None if out is None else (out[-1] if len(out) == n_out + 1 else ("emitted", len(out) - n_out)))
+        vs.append(vals[-1] if len(vals) == n_v + 1 else ("emitted", len(vals) - n_v))
+    return {"construct_error": None, "results": res, "values": vs}
+
+
+def check_mixed(ctx, case, answers=None):
+    with use_labels(case):
+        return _check_mixed(ctx, case)
+
+
+def _check_mixed(ctx, case):
+    cols, T, outer = case["cols"], case["tree"], case["outer"]
+    kind = mix_kind(T)
+    ctx.count("mixed:kind:" + kind)
+    ctx.count("mixed:order:" + case.get("order", "?"))
+    ctx.count("mixed:outer:" + ("none" if outer is None else outer["agg"]))
+    pd = pdmod()
+    with warnings.catch_warnings():
+        warnings.simplefilter("ignore")
+        impl = run_mixed_impl(case)
+        if impl["construct_error"]:
+            ctx.count("mixed:construct-error")
+            ctx.failure("mixed:construct:" + impl["construct_error"].split(":")[0],
+                        "building the streaming graph raised " + impl["construct_error"], case)
+            ctx.case(case, nontrivial=False)
+            return
+        src, start = [], 0
+        for b in case["batches"]:
+            df = mk_frame(cols, b, start)
+            start += len(df)
+            src.append(df)
+        streaming = kind in ("SS", "SF")
+        folded = []
+        n_claims = 0
+        base = "mixed:%s:%s" % (kind, case.get("order", "?"))
+        for k in range(len(src)):
+            prefix = build_pipe(concat(src[:k + 1]), case["pipe"])
+            batch = build_pipe(src[k], case["pipe"])
+            want_v = build_t(T, batch, prefix)
+            folded.append(want_v)
+            got_v = impl["values"][k]
+            cg = got_v if isinstance(got_v, tuple) else canon_value(kind, got_v)
+            cw = canon_value(kind, want_v)
+            # updating trees over a prefix without rows: pandas' reductions of nothing (0, NaN, empty) are compared too
+            if not values_close(cg, cw):
+                ctx.failure(base + ":per-batch-value-differs",
+                            "batch %d: the tree emitted %s, pandas (aggregates of the prefix, rows of the batch) gives %s"
+                            % (k, show(cg), show(cw)), case, expected=show(cw), observed=show(cg),
+                            oracle="value_k == tree(aggregates over pd.concat(batches[:k+1]), rows of batch k)")
+                break
+            n_claims += 1
+            if outer is None:
+                continue
+            got = canon_outer(kind, outer, impl["results"][k])
+            if streaming:
+                whole = pd.concat(folded)
+                if len(whole) == 0:
+                    ctx.count("mixed:oracle:no-row-prefix")
+                    continue
+                want = canon_outer(kind, outer, mix_outer(whole, outer, False))
+            else:
+                if len(prefix) == 0:
+                    ctx.count("mixed:oracle:no-row-prefix")
+                    continue
+                want = canon_outer(kind, outer, mix_outer(want_v, outer, False))
+            if not values_close(got, want):
+                sig = base + ":outer:" + outer["agg"] + (":" + got[0] + ":" + str(got[1]) if isinstance(got, tuple) else ":value-differs")
+                ctx.failure(sig, "after batch %d %s of the tree emitted %s, pandas folding the per-batch values of the prefix gives %s"
+                            % (k, outer["agg"], show(got), show(want)), case, expected=show(want), observed=show(got),
+                            oracle="outer aggregation k == pandas aggregation of pd.concat(value_1 .. value_k)")
+                break
+        ctx.case(case, nontrivial=n_claims >= 2)
+
+
+def gen_mixed_case(rng):
+    cols = list(COLS)
+    n = rng.choice([2, 3, 5, 8, 12])
+    rows = gen_table(rng, n, cols)
+    batches = split_rows(rng, rows, cols)
+    labels, scheme = gen_labels(rng, cols)
+    if scheme == "bool":
+        labels, scheme = None, "plain"
+    pipe = [["filter", gen_mexpr(rng, cols, 0)]] if rng.random() < 0.25 else []
+    valcols = ["x", "y"]
+
+    def S():
+        return ["s", gen_cexpr(rng, valcols + (["g"] if rng.random() < 0.2 else []), rng.choice([0, 0, 1]))]
+
+    def U():
+        return ["u", rng.choice(MIX_UAGG), gen_cexpr(rng, valcols, rng.choice([0, 0, 1]))]
+
+    def combine(a, b):
+        r = rng.random()
+        if r < 0.75:
+            return ["bin", rng.choice(["add", "sub", "mul"]), a, b]
+        return ["cmp", rng.choice(list(CMP)), a, b]
+
+    def wrap(t):
+        r = rng.random()
+        if r < 0.15 and t[0] not in ("cmp", "cmpr"):       # numpy / pandas reject unary minus on booleans
+            return ["neg", t]
+        if r < 0.3:
+            return ["abs", t]
+        if r < 0.45:
+            return ["binr", rng.choice(["add", "sub", "mul"]), t, rng.choice([-1, 2, 3])]
+        if r < 0.6:
+            return ["binl", rng.choice(["add", "sub", "mul"]), rng.choice([-1, 2, 3]), t]
+        return t
+
+    shape = rng.choice(["SS", "SS", "SS", "SS", "SF", "US", "UG"])
+    order = rng.choice(["updating-left", "updating-left", "updating-right"])
+    outer = None
+    if shape == "SS":
+        u, s_ = wrap(U()) if rng.random() < 0.4 else U(), S()
+        T = combine(u, s_) if order == "updating-left" else combine(s_, u)
+        r = rng.random()
+        if r < 0.3:                     # one more level: (U op S) op S', S' op (U op S), U' op (S op U) ...
+            extra = S() if rng.random() < 0.6 else U()
+            T = combine(extra, T) if rng.random() < 0.5 else combine(T, extra)
+        T = wrap(T)
+        outer = None if rng.random() < 0.1 else {"agg": rng.choice(["sum", "count", "mean", "size"])}
+    elif shape == "SF":
+        u = ["uf", rng.choice(["sum", "count", "mean"])] if rng.random() < 0.6 else U()
+        op = rng.choice(["add", "sub", "mul"])
+        T = ["bin", op, u, ["sf"]] if order == "updating-left" else ["bin", op, ["sf"], u]
+        T = wrap(T)
+        r = rng.random()
+        if r < 0.45:
+            outer = {"agg": rng.choice(["sum", "count", "mean"])}
+        elif r < 0.9:
+            outer = {"agg": rng.choice(["sum", "count", "mean", "size"]), "col": rng.choice(cols)}
+    elif shape == "US":
+        T = wrap(combine(U(), U()))
+        order = "updating-only"
+    else:
+        val = rng.choice(valcols)
+        a, b = ["ug", rng.choice(["sum", "count", "mean", "size"]), "g", val], ["ug", rng.choice(["sum", "count", "mean", "size"]), "g", val]
+        if rng.random() < 0.3:
+            b = U()
+        T = wrap(combine(a, b) if rng.random() < 0.5 else combine(b, a))
+        order = "updating-only"
+        if rng.random() < 0.5:
+            outer = {"agg": rng.choice(["sum", "count", "mean"])}
+    case = {"kind": "mixed", "order": order, "cols": cols, "batches": batches, "pipe": pipe, "tree": T, "outer": outer}
+    if labels:
+        case["labels"], case["label_scheme"] = labels, scheme
+    return case
+
+
+def mixed_corpus():
+    X, Y = ["col", "x"], ["col", "y"]
+    bs = [B([1, 4], y=[1, 2]), B([2], y=[3]), B([]), B([8, 5, None, 3], y=[1, 2, 3, 1]), B([9, 6], y=[2, None])]
+    empty_first = [B([])] + bs
+    cs = []
+    trees = [("updating-left", ["bin", "sub", ["u", "mean", X], ["s", X]]),
+             ("updating-right", ["bin", "sub", ["s", X], ["u", "mean", X]]),
+             ("updating-left", ["bin", "mul", ["u", "count", X], ["s", X]]),
+             ("updating-left", ["bin", "add", ["u", "sum", X], ["s", Y]]),
+             ("updating-left", ["bin", "add", ["binr", "mul", ["u", "sum", X], 2], ["s", X]]),
+             ("updating-left", ["cmp", "lt", ["u", "mean", X], ["s", X]]),
+             ("updating-right", ["cmp", "gt", ["s", X], ["u", "mean", X]]),
+             ("updating-left", ["abs", ["bin", "sub", ["u", "size", X], ["s", Y]]]),
+             ("updating-left", ["neg", ["bin", "mul", ["u", "mean", Y], ["s", X]]])]
+    for order, T in trees:
+        for batches in (bs, empty_first):
+            for agg in ("sum", "count", "mean", "size"):
+                cs.append({"kind": "mixed", "order": order, "cols": COLS, "batches": batches, "pipe": [], "tree": T, "outer": {"agg": agg}})
+    for order, T in (("updating-left", ["bin", "sub", ["uf", "mean"], ["sf"]]), ("updating-right", ["bin", "sub", ["sf"], ["uf", "mean"]]),
+                     ("updating-left", ["bin", "mul", ["u", "count", X], ["sf"]])):
+        for outer in ({"agg": "sum"}, {"agg": "mean", "col": "x"}, {"agg": "count"}):
+            cs.append({"kind": "mixed", "order": order, "cols": COLS, "batches": bs, "pipe": [], "tree": T, "outer": outer})
+    gb = [B([1, 2, None], g=[0, 1, 2]), B([]), B([3, 3], g=[1, None]), B([5], g=[0])]
+    cs.append({"kind": "mixed", "order": "updating-only", "cols": COLS, "batches": gb, "pipe": [],
+               "tree": ["bin", "sub", ["ug", "sum", "g", "x"], ["bin", "mul", ["ug", "mean", "g", "x"], ["ug", "count", "g", "x"]]],
+               "outer": {"agg": "sum"}})
+    cs.append({"kind": "mixed", "order": "updating-only", "cols": COLS, "batches": gb, "pipe": [],
+               "tree": ["bin", "sub", ["u", "sum", X], ["bin", "mul", ["u", "mean", X], ["u", "count", X]]], "outer": None})
+    return cs
+
+
 # ------------------------------------------------------------------ exhaustive tier (direct level, shared prefixes)
 
 def exhaustive_tree(ctx, specs, alphabet, max_rows, max_empty):
@@ -1793,7 +2127,7 @@ def exhaustive_tree(ctx, specs, alphabet, max_rows, max_empty):
 def run_cases(ctx, cases):
     lines, spans = [], []
     for c in cases:
-        ml = [] if c["kind"] == "nonfinite" else (prog_lines(c) if c["kind"] == "prog" else
+        ml = [] if c["kind"] in ("nonfinite", "mixed") else (prog_lines(c) if c["kind"] == "prog" else
                                                   api_lines(c) if c["kind"] == "api" else direct_lines(c))
         spans.append((len(lines), len(lines) + len(ml)))
         lines += ml
@@ -1801,6 +2135,8 @@ def run_cases(ctx, cases):
     for c, (a, b) in zip(cases, spans):
         if c["kind"] == "nonfinite":
             check_api(ctx, c, None)          # oracle only: real streamz vs real pandas
+        elif c["kind"] == "mixed":
+            check_mixed(ctx, c)              # oracle only
         elif c["kind"] == "prog":
             check_prog(ctx, c, answers[a:b])
         elif c["kind"] == "api":
@@ -1835,6 +2171,18 @@ def run(ctx):
         "assigned after the groupby object exists (pandas resolves by-name keys when the groupby is created, streamz per batch) - these two "
         "orders are not generated; the model receives the functional reading of the program (pipeline + target), except when a "
         "streaming-series grouper was computed from columns overwritten afterwards (oracle only, counted prog:not-sent-to-model)",
+        "updating (x) streaming operands (kind 'mixed', ORACLE-ONLY - the Lean model has no 'updating' operands; counted under "
+        "'mixed:' and never sent to the driver): trees combine running aggregates (sum/count/mean/size of a column expression, "
+        "sum/count/mean of the frame, groupby aggregates) with streaming columns / the streaming frame through + - * comparisons, "
+        "unary - and abs, scalar on either side, with the aggregate as LEFT and as RIGHT operand. Convention (checked on the "
+        "unchanged tree in both orders): after batch k every running aggregate holds its pandas value over pd.concat(batches[:k+1]) "
+        "(batch k included) and is broadcast against the rows of batch k only; the tree's k-th emission is "
+        "tree(aggregates of the prefix, rows of batch k); a tree with a streaming leaf is a streaming collection whose outer "
+        "sum/count/mean/size after batch k is the pandas aggregation of pd.concat(value_1..value_k); a tree of aggregates only is "
+        "an updating collection whose k-th version is compared and whose sum/count/mean reduce that version. Kept out: Var as "
+        "operand or outer aggregation (its ZeroDivisionError on a row-less prefix aborts the emit between the two branches of the "
+        "zip), groupby aggregates against streaming rows (different index), division, boolean labels, unary minus of a comparison "
+        "(numpy and pandas reject `-` on booleans)",
         "column labels: a share of the api / direct / program cases (and a corpus) run on frames whose labels are falsy or not strings - "
         "positional ints 0,1,2 (pd.DataFrame(ndarray)), floats 0.0,1.0,2.0, False/True, '' - permuted so that the value column, the by-name "
         "grouping key, the column inside a streaming-series grouper, the aggregated / selected column each take the falsy label; the "
@@ -1852,8 +2200,9 @@ def run(ctx):
         "they are never sent to the model driver; they are counted under the 'nonfinite:' keys of the distribution and do not "
         "contribute to traces_validated_against_impl",
     ]
-    n_api, n_direct, n_nonfinite, n_prog = (1200, 600, 300, 350) if not ctx.thorough() else (8000, 4000, 3000, 3000)
-    cases = corpus() + nonfinite_corpus() + prog_corpus() + label_corpus()
+    n_api, n_direct, n_nonfinite, n_prog, n_mixed = ((1000, 550, 250, 300, 260) if not ctx.thorough()
+                                                     else (8000, 4000, 3000, 3000, 3000))
+    cases = corpus() + nonfinite_corpus() + prog_corpus() + label_corpus() + mixed_corpus()
     # every aggregation gets its share of api cases
     aggs = SCALAR_AGGS
     for i in range(n_api):
@@ -1864,6 +2213,8 @@ def run(ctx):
         cases.append(gen_nonfinite_case(ctx.rng))
     for i in range(n_prog):
         cases.append(gen_prog_case(ctx.rng))
+    for i in range(n_mixed):
+        cases.append(gen_mixed_case(ctx.rng))
     # chunk so that one driver process handles a bounded script
     for i in range(0, len(cases), 2000):
         run_cases(ctx, cases[i:i + 2000])
@@ -1890,6 +2241,7 @@ def run(ctx):
         "or with NaN keys) for the groupby aggregations, as a prefix tree: real object, model and pandas-on-the-concatenation compared at every node. "
         "Statement programs (kind prog) place in-place assignments sdf[c] = expr (new and existing columns) between the creation of a "
         "groupby object / column / selection / filtered frame and the aggregation taken from it. "
+        "Oracle-only trees (kind mixed) combine running aggregates with streaming operands in both operand orders and aggregate them again. "
         "A separate oracle-only stream (kind nonfinite, not sent to the model) puts +-inf into the aggregated column. Non-trivial api case: >=2 emissions compared with pandas and (an empty batch or a non-empty pipeline); direct: >=2 oracle claims. "
         "Distinct = distinct case JSON.")
 
@@ -1901,6 +2253,10 @@ def replay(ctx, data):
     if c["kind"] == "nonfinite":
         check_api(ctx, c, None)
         ctx.coverage["rule"] = "replay of one recorded oracle-only (non-finite) case"
+        return
+    if c["kind"] == "mixed":
+        check_mixed(ctx, c)
+        ctx.coverage["rule"] = "replay of one recorded oracle-only (updating x streaming) case"
         return
     if c["kind"] == "prog":
         lines = prog_lines(c)
